@@ -13,6 +13,40 @@ import numpy as np
 
 from common import F, Rng, close, digest, err_class, fl, pmat, pvec, rs
 
+import os
+
+import c15_translate
+import common
+
+GEN_FILE = os.path.join(common.LEAN_DIR, "FDAModel", "Generated", "IrregularGuards.lean")
+TRANSLATOR_NOTE = ""
+
+
+def translate():
+    """Regenerate Generated/IrregularGuards.lean from what `standardize`, `mean`, `covariance` of
+    IrregularFunctionalData say now.  An unrecognised source shape is NOT an alarm: the reference translation kept beside
+    the translator is used and the evidence says so.  Only a successful translation can break `C15.guards_match_source`."""
+    global TRANSLATOR_NOTE
+    path = os.path.join(common.REPO, "FDApy", "representation", "functional_data.py")
+    try:
+        src = c15_translate.lean_source(path)
+        TRANSLATOR_NOTE = ("translator: standardize guard/buffer, binned-mean switch and covariance weight rule regenerated from the "
+                           "source and re-proved equal to the model (C15.guards_match_source)")
+    except (ValueError, SyntaxError, IndexError, AttributeError, KeyError, TypeError) as e:
+        TRANSLATOR_NOTE = f"translator: source shape not recognised, tie rests on the correspondence only ({e})"
+        print("note:", TRANSLATOR_NOTE)
+        src = open(os.path.join(os.path.dirname(os.path.abspath(__file__)), "c15_irregularguards_reference.lean")).read()
+    except OSError as e:
+        raise common.InfraError(f"translator: cannot read {path}: {e}")
+    if not os.path.exists(GEN_FILE) or open(GEN_FILE).read() != src:
+        with open(GEN_FILE, "w") as fh:
+            fh.write(src)
+
+
+def extra_coverage(cases, impls, models):
+    return dict(translator=TRANSLATOR_NOTE)
+
+
 PROP = "C15"
 MODULES = ["FDAProofs.Props.C15"]
 DRIVER = "Drivers/C15.lean"
@@ -37,7 +71,9 @@ PARTIAL = [
     "square roots (norm, normalize) through squares; np.interp, np.unique, np.isin are modelled by their documented semantics",
     "2-D irregular data are outside the property's quantifier (1-D only)",
 ]
-TRUSTED_EXTRA = ["numpy.interp / numpy.unique / numpy.isin semantics as modelled in lean/FDAModel/Irregular.lean"]
+TRUSTED_EXTRA = ["numpy.interp / numpy.unique / numpy.isin semantics as modelled in lean/FDAModel/Irregular.lean",
+                 "harness/c15_translate.py: syntactic reading of the standardize guard/buffer, the binned-mean switch and the covariance "
+                 "weight rule (IEEE NaN comparison semantics, constants as exact rationals), ~150 lines"]
 
 
 # --------------------------------------------------------------------------
@@ -361,6 +397,12 @@ def _ops(fd, case, irregular=True):
                     r_ = fd.standardize(center=ctr, **skw)
                 out[key_] = _at_observed(r_, fd)
                 out[key_ + "_fake"] = _fake_samples(r_, fd)
+                if key_ == "std_lp":
+                    out["std_full"] = _content(r_)
+                    fc = fd.center(**skw)
+                    var_ = np.diag(np.asarray(fc.covariance(**skw).values, dtype=float).squeeze())
+                    out["std_dev"] = [None if not (v_ >= 0) else float(np.sqrt(v_)) for v_ in var_]
+                    out["std_centred"] = _content(fc)
             except Exception as e:
                 out[key_] = "error:" + err_class(e) + ":" + str(e)[:80]
         _try(out, "gram_lp", lambda: np.asarray(fd.inner_product(noise_variance=0, method_smoothing="LP", bandwidth=bw), dtype=float).tolist())
@@ -592,6 +634,18 @@ def model_lines(case, impl):
     else:
         lines.append("noop")
     lines.append(f"fmt {g} {V} {Mk} {g}")
+    # standardize: the model divides the CENTRED content (taken from the implementation, exact floats) by the deviations
+    # the implementation estimated (NaN where the smoothed variance is negative)
+    sd, cen = impl["nan"].get("std_dev"), impl["nan"].get("std_centred")
+    if isinstance(sd, list) and isinstance(cen, list) and len(sd) == len(case["t"]) and all(math.isfinite(r_[2]) for r_ in cen):
+        tt_ = [float(F(x)) for x in case["t"]]
+        Vc = [["0"] * len(tt_) for _ in case["V"]]
+        for x_, i_, y_ in cen:
+            Vc[i_][tt_.index(x_)] = rs(Fraction(float(y_)))
+        sdv = ",".join("n" if v_ is None else rs(Fraction(float(v_))) for v_ in sd)
+        lines.append(f"std {g} {_M(Vc)} {Mk} {g} {sdv}")
+    else:
+        lines.append("noop")
     mu = impl["nan"].get("mean_lp_plain")
     if isinstance(mu, list) and np.all(np.isfinite(np.array(mu, dtype=float))):
         muv = _exactv(mu[0])
@@ -755,15 +809,22 @@ def compare(case, impl, model):
                     [Fraction(float(y)) for y in (fit["w"] or [])] != pvec(parts[2 + j]):
                 ds.append(f"mean(PS) inputs[{e}]: the P-spline did not receive the model's _format_data values/weights")
     if o[10] != "noop":
+        # standardize: every sample of the result (missing ones must stay missing: the rows are the observed cells only)
+        sdv = [v_ for v_ in impl["nan"]["std_dev"] if v_ is not None and v_ > 1e-12]
+        ssc = vs / min(sdv) if sdv else vs
         for e, s in zip(encs, o[10].split(" | ")):
+            if isinstance(impl[e].get("std_full"), list):
+                ds += _cmp_rows(f"standardize[{e}]", impl[e]["std_full"], _rows(s), exact=False, scale=max(ssc, 1.0) * 1e2)
+    if o[11] != "noop":
+        for e, s in zip(encs, o[11].split(" | ")):
             ds += _cmp_rows(f"center[{e}]", impl[e]["center_lp"], _rows(s), exact=False, scale=vs)
-        parts = o[11].split(" | ")
+        parts = o[12].split(" | ")
         for e, s in zip(encs, parts[:2]):
             ds += _cmp_mat(f"raw covariance (centred)[{e}]", impl[e]["cov_raw_lp"], s, vs * vs, 1e-8)
-        if o[12].startswith("error"):
-            ds.append(f"gram: model answered {o[12]}")
+        if o[13].startswith("error"):
+            ds.append(f"gram: model answered {o[13]}")
         else:
-            for e, s in zip(encs, o[12].split(" | ")):
+            for e, s in zip(encs, o[13].split(" | ")):
                 ds += _cmp_mat(f"inner_product[{e}]", impl[e]["gram_lp"], s, vs * vs * span, 1e-8)
     return ds
 
